@@ -12,8 +12,13 @@ from . import gens
 _PKG = "sansldap"
 
 
-def exc_site(e: BaseException) -> str:
-    """'<ExcType>@<innermost sansldap function that is not in asn1.py>' (falls back to asn1 frames)."""
+def exc_site(e: BaseException, innermost: bool = False) -> str:
+    """'<ExcType>@<innermost sansldap function that is not in asn1.py>' (falls back to asn1 frames).
+
+    innermost=True: the innermost sansldap frame whatever its file (root-cause site of an escaped
+    exception); RecursionError has no meaningful site."""
+    if isinstance(e, RecursionError):
+        return "RecursionError"
     tb = e.__traceback__
     best = None
     best_any = None
@@ -26,6 +31,8 @@ def exc_site(e: BaseException) -> str:
             if not fn.endswith("/asn1.py"):
                 best = best_any
         tb = tb.tb_next
+    if innermost:
+        return f"{type(e).__name__}@{best_any or '?'}"
     return f"{type(e).__name__}@{best or best_any or '?'}"
 
 
